@@ -63,6 +63,22 @@ fn plan_for(property: &str) -> Option<Plan> {
       params_quick: &[("max_ops", 12)],
       params_thorough: &[("max_ops", 12)],
     },
+    "C01" => Plan {
+      engine: "world",
+      level: "exploration",
+      quick_runs: 6_000,
+      thorough_runs: 600_000,
+      params_quick: &[],
+      params_thorough: &[],
+    },
+    "C08" => Plan {
+      engine: "world",
+      level: "exploration",
+      quick_runs: 6_000,
+      thorough_runs: 600_000,
+      params_quick: &[],
+      params_thorough: &[],
+    },
     "C02" => Plan {
       engine: "world",
       level: "exploration",
